@@ -224,6 +224,14 @@ def uses_complex(r):
 FATAL = (KeyboardInterrupt, SystemExit, MemoryError)
 
 
+def exc_sig(e):
+    """Exception type and sanitised message: the observable symptom used to tag violation keys."""
+    import re
+
+    msg = re.sub(r"[^A-Za-z_ ']", "", str(e))[:60].strip()
+    return type(e).__name__ + (":" + msg if msg else "")
+
+
 class Checker:
     def __init__(self, U):
         self.U = U
@@ -297,11 +305,8 @@ class Checker:
                 # legacy: a Form that is identically zero carries no arguments; what follows is not defined
                 part.count("exception_with_zero_Form_operand")
                 return None
-            import re
-
-            sig = en + (":" + re.sub(r"[^A-Za-z_ ']", "", str(e))[:60].strip() if str(e) else "")
             self.violation(
-                part, "exception-on-valid", r, sig, f"type-correct composition raises {en}: {str(e)[:200]}",
+                part, "exception-on-valid", r, exc_sig(e), f"type-correct composition raises {en}: {str(e)[:200]}",
                 {"exception": en, "message": str(e)[:500], "model_slots": list(typ[1])},
             )
             return None
@@ -384,7 +389,7 @@ class Checker:
                 raise
             got_args = None
             bad = True
-            self.violation(part, "arguments", r, "raises", f"arguments() raises {type(e).__name__}: {str(e)[:200]}", {"expected": exp_args})
+            self.violation(part, "arguments", r, "raises " + exc_sig(e), f"arguments() raises {type(e).__name__}: {str(e)[:200]}", {"expected": exp_args})
         if got_args is not None:
             if zero_form and len(got_args) < len(exp_args):
                 part.count("zero_Form_lost_arguments")
@@ -433,7 +438,7 @@ class Checker:
                 raise
             names = None
             bad = True
-            self.violation(part, "coefficients", r, "raises", f"coefficients() raises {type(e).__name__}: {str(e)[:200]}", {})
+            self.violation(part, "coefficients", r, "raises " + exc_sig(e), f"coefficients() raises {type(e).__name__}: {str(e)[:200]}", {})
         if names is not None:
             dep = self.dependence(r, mT[0])
             missing = sorted(dep - set(names))
